@@ -30,6 +30,10 @@ def pipe_cfg(tag, family, maxrows, invariants=(), props=(), dev=None, live=False
     return p
 
 
+# the call protocol of the machine (the calls the jawk_verif hook records in the code)
+PROTOCOL = ["WellNested", "StartsFirst", "CompleteDiscipline", "HeadStops", "BreakPropagates", "LimiterLatched", "PrintedAreLogged"]
+
+
 def model_check(chk, families, maxrows, invariants, workers=8, timeout=3000):
     for fam in families:
         cfg = pipe_cfg("mc-" + fam, fam, maxrows, invariants)
@@ -88,6 +92,21 @@ class Cases:
         self.recipes.append(recipe)
 
 
+KIND_OF_STAGE = {"print": "print", "group": "grp", "merge": "mrg", "limit": "lim", "sort": "sort", "unique": "uniq", "select": "select", "filter": "filter",
+                 "split": "split", "set": "set"}
+
+
+def calls_record(calls):
+    """The events of the jawk_verif hook ([stage, kind, event, row, titles, outcome]; stage 0 = the printer) as the call log of Pipeline.tla
+    ([ev, i, k, row, n, res]; i = 1 for the head of the chain)."""
+    n = max([c[0] for c in calls] + [0]) + 1
+    out = []
+    for stage, kind, ev, row, titles, outcome in calls:
+        out.append({"ev": ev, "i": n - stage, "k": KIND_OF_STAGE.get(kind, kind), "row": enc(PL.parse_ast(row)) if row is not None else {"t": "nothing"},
+                    "n": titles, "res": outcome})
+    return out
+
+
 def build_record(rc, obs):
     k = rc["kind"]
     if k == "ref":
@@ -95,6 +114,8 @@ def build_record(rc, obs):
              "sep": rc.get("sep", [10]), "res": obs[0]["res"]}
         if rc.get("expect") is not None:
             r["expect"] = rc["expect"]
+        if obs[0].get("calls") is not None and obs[0]["res"] == "ok":
+            r["calls"] = calls_record(obs[0]["calls"])
         return r
     if k == "rel":
         r = {"kind": "rel", "rel": rc["rel"], "cfg": PL.strip_private(rc["cfg"]), "out": list(bytes.fromhex(obs[0]["out"])), "res": obs[0]["res"],
@@ -128,9 +149,11 @@ def run_and_validate(chk, jvh, cs, tag, nproc):
     """Run all recipes, build the records, validate them with Trace_Pipe; file violations / drift on chk."""
     cases, owner = [], []
     for ri, rc in enumerate(cs.recipes):
-        for run in rc["runs"]:
+        for j, run in enumerate(rc["runs"]):
             c = dict(run)
             c["id"] = len(cases)
+            if rc["kind"] == "ref" and j == 0:
+                c["calls"] = True              # record the stage calls (jawk_verif hook) next to the output
             cases.append(c)
             owner.append(ri)
     obs = run_cases(jvh, cases)
@@ -144,6 +167,10 @@ def run_and_validate(chk, jvh, cs, tag, nproc):
         recs.append(r)
     flags, _ = run_trace_spec("Trace_Pipe", recs, tag, nproc=nproc)
     chk.traces += len(recs)
+    ncalls = sum(len(r.get("calls", [])) for r in recs)
+    if ncalls:
+        chk.notes["stage_calls_validated"] = chk.notes.get("stage_calls_validated", 0) + ncalls
+        chk.notes["runs_with_call_log"] = chk.notes.get("runs_with_call_log", 0) + sum(1 for r in recs if "calls" in r)
     chk.evaluations += len(cases)
     for kind, case, what in flags:
         rc = cs.recipes[case]
@@ -156,7 +183,7 @@ def run_and_validate(chk, jvh, cs, tag, nproc):
         if kind == "MISMATCH":
             chk.violation("%s%s: %s  argv=%s stdin=%r" % (rc["kind"], "/" + rc["rel"] if "rel" in rc else "", what, first["argv"], stdin[:200]), rep)
         elif kind == "DRIFT":
-            chk.drift.append({"argv": first["argv"], "what": what})
+            chk.drift.append({"argv": first["argv"], "stdin": stdin.decode("utf-8", "replace")[:300], "what": what})
         elif kind == "SKIP":
             chk.notes["skipped_outside_quantifier"] = chk.notes.get("skipped_outside_quantifier", 0) + 1
             chk.traces -= 1
